@@ -15,9 +15,9 @@ def valid : List Byte := [65, 67, 71, 84, 82, 89, 83, 87, 75, 77, 66, 68, 72, 86
 def codeOf (c : Byte) : Byte := (nt2IndexIUPAC c).getD 0
 
 theorem fold_upper : ∀ c : Byte,
-    Spec.ntBases c = Spec.ntBases (Spec.upper c) ∧ nt2IndexIUPAC c = nt2IndexIUPAC (Spec.upper c) ∧
+    Spec.ntBases c = Spec.ntBases (Spec.upperCase c) ∧ nt2IndexIUPAC c = nt2IndexIUPAC (Spec.upperCase c) ∧
     ((Spec.ntBases c).isSome = (nt2IndexIUPAC c).isSome) ∧
-    ((Spec.ntBases c).isSome = true → Spec.upper c ∈ valid) := by
+    ((Spec.ntBases c).isSome = true → Spec.upperCase c ∈ valid) := by
   decide +kernel
 
 theorem compat_valid : ∀ u ∈ valid, ∀ v ∈ valid,
